@@ -34,7 +34,7 @@ CHAINS = {
 }
 REMOVE_SETS = [None, "minimal", "leaves", "leaves", "normal", "tutorial1", "leaves..tutorial_gui",
                "all..tutorial_gui..client_clicked"]
-NETS = ["net1", "net1", "net1 net2", "net1 net2 net3", "cluster1.net6 cluster1.net7"]
+NETS = ["net1", "net1", "net1 net2", "net1 net2 net3", "cluster1.net6 cluster1.net7", "net5 net1", "net1 net3 net2", "net5 net1"]
 
 
 def ancestors(vm, state):
